@@ -24,7 +24,7 @@ func genForCase(t *rapid.T) forCase {
 	var c forCase
 	c.Cfg = gen.AsmConfig{NOP94: rapid.Bool().Draw(t, "nop94"), CoreSize: rapid.SampledFrom([]int64{8000, 8192, 55440}).Draw(t, "M"), Length: 3000, Distance: 100, Processes: 8}
 	c.Prog, c.Info = gen.ForProgram(t, c.Cfg)
-	c.Style = rc.Style{Choices: rapid.SliceOfN(rapid.IntRange(0, 63), 4, 40).Draw(t, "choices")}
+	c.Style = rc.Style{Choices: rapid.SliceOfN(rapid.IntRange(0, 63), 4, 40).Draw(t, "choices"), Rename: rapid.Bool().Draw(t, "rename")}
 	// the last top-level item is a block and the text ends right after its ROF
 	last := c.Prog.Items[len(c.Prog.Items)-1]
 	if last.Kind == rc.KFor && rapid.IntRange(0, 5).Draw(t, "rofeof") == 0 {
@@ -103,6 +103,7 @@ func judgeForCase(c forCase, rec *hx.Rec) string {
 		add(i.LabelInsideBody, "instruction_label_inside_a_body")
 		add(i.EquTwoLevelsDeep, "equ_defined_two_levels_deep")
 		add(i.LabelsInDeadBlock, "labelled_blocks_inside_a_zero_count_block")
+		add(i.EquWeb, "equ_values_naming_several_earlier_equs")
 		add(i.EquByCounter, "equ_defined_in_one_copy_chosen_by_the_count_variable")
 		add(i.Nested, "nested")
 		add(i.ZeroCount, "zero_count")
